@@ -188,7 +188,11 @@ class USBOutStreamBoundaryDetector(Elaboratable):
                 with m.If(in_stream.valid & in_stream.next):
                     m.d.usb += [
                         buffered_byte.eq(in_stream.payload),
-                        is_first_byte.eq(1)
+                        is_first_byte.eq(1),
+
+                        # A strobe that coincides with the first byte already belongs to this packet.
+                        buffered_complete.eq(self.complete_in),
+                        buffered_invalid.eq(self.invalid_in),
                     ]
                     m.next = 'RECEIVE_AND_TRANSMIT'
 
@@ -198,7 +202,11 @@ class USBOutStreamBoundaryDetector(Elaboratable):
             with m.State('RECEIVE_AND_TRANSMIT'):
                 m.d.usb += [
                     out_stream.valid  .eq(1),
-                    out_stream.next   .eq(0)
+                    out_stream.next   .eq(0),
+
+                    # (We can get here straight from OUTPUT_STROBES; so make sure its strobes only last a cycle.)
+                    self.complete_out .eq(0),
+                    self.invalid_out  .eq(0),
                 ]
 
                 # Buffer any complete/invalid signals we get while receiving, so we don't output
@@ -250,6 +258,16 @@ class USBOutStreamBoundaryDetector(Elaboratable):
                     self.invalid_out  .eq(buffered_invalid)
                 ]
                 m.next = 'WAIT_FOR_FIRST_BYTE'
+
+                # If the first byte of the next packet arrives right now, capture it rather than losing it.
+                with m.If(in_stream.valid & in_stream.next):
+                    m.d.usb += [
+                        buffered_byte      .eq(in_stream.payload),
+                        is_first_byte      .eq(1),
+                        buffered_complete  .eq(self.complete_in),
+                        buffered_invalid   .eq(self.invalid_in),
+                    ]
+                    m.next = 'RECEIVE_AND_TRANSMIT'
 
 
         if self._domain != "usb":
